@@ -153,6 +153,10 @@ func c13extra(p *Program, r *Report, scope []*ssa.Function, inScope map[*ssa.Fun
 	r.Floor("C13.index", 2)
 
 	gcsWriterRule(p, r, "C13.writer")
+	if gcsSortedRule(p, r, "C13.sorted") == 0 {
+		r.Unresolved("C13.sorted", "a []uint64 read by index in a function of package gcs that decodes the filter")
+	}
+	r.Floor("C13.sorted", 1)
 	gcsQueryRule(p, r, NewEffects(p), "C13.frozen")
 	r.Floor("C13.frozen", 8)
 	// C13.bounds: a query answers, it does not panic (the panic-freedom obligations of C08 for the query methods)
@@ -453,4 +457,183 @@ func gcsIndexComplete(p *Program, r *Report, fn *ssa.Function, mu *ssa.MapUpdate
 		return
 	}
 	r.Add("C13.index", fname, "every value read from the filter enters the index", mu.Pos(), okIns, howIns)
+}
+
+// gcsSortedRule (round 6, C13-agent6-m1): the zip strategy merges the decoded filter with the hashed query, advancing
+// through the query only forwards; it is right only for a query in ascending order.  Every []uint64 that a function
+// of package gcs reads by index while it also decodes the filter (calls the in-repo delta reader) is sorted before the
+// first read: a sort call on that very value dominates the reads, or — when the slice arrives as a parameter — every
+// call site in the repository hands in a value that was sorted there.  (HashMatchAny falling back to the merge helper
+// with the query in arrival order answered "no match" for members.)
+func gcsSortedRule(p *Program, r *Report, rule string) int {
+	pk := p.Pkg("gcs")
+	if pk == nil {
+		return 0
+	}
+	isU64Slice := func(t types.Type) bool {
+		sl, ok := t.Underlying().(*types.Slice)
+		if !ok {
+			return false
+		}
+		b, ok := sl.Elem().Underlying().(*types.Basic)
+		return ok && b.Kind() == types.Uint64
+	}
+	decodes := func(fn *ssa.Function) bool {
+		for _, b := range fn.Blocks {
+			for _, in := range b.Instrs {
+				c, ok := in.(*ssa.Call)
+				if !ok {
+					continue
+				}
+				cal := c.Call.StaticCallee()
+				if cal == nil || !p.InRepo(cal) || cal.Signature.Results().Len() != 2 {
+					continue
+				}
+				if bt, ok := cal.Signature.Results().At(0).Type().Underlying().(*types.Basic); ok && bt.Kind() == types.Uint64 {
+					return true
+				}
+			}
+		}
+		return false
+	}
+	sortCallOn := func(c *ssa.Call, v ssa.Value) bool {
+		cal := c.Call.StaticCallee()
+		if cal == nil || len(c.Call.Args) == 0 {
+			return false
+		}
+		switch cal.String() {
+		case "sort.Slice", "sort.SliceStable", "sort.Sort", "sort.Stable", "slices.Sort", "slices.SortFunc", "slices.SortStableFunc":
+		default:
+			if !(cal.Pkg != nil && cal.Pkg.Pkg.Path() == "slices" && strings.HasPrefix(cal.Name(), "Sort")) {
+				return false
+			}
+		}
+		a := c.Call.Args[0]
+		if mi, ok := a.(*ssa.MakeInterface); ok {
+			a = mi.X
+		}
+		if ct, ok := a.(*ssa.ChangeType); ok {
+			a = ct.X
+		}
+		if a == v {
+			return true
+		}
+		// a variable captured by the comparison closure lives in a cell: both are loads of the same cell, and nothing is
+		// stored to the cell after the sort
+		la, okA := a.(*ssa.UnOp)
+		lv, okV := v.(*ssa.UnOp)
+		if !okA || !okV || la.Op != token.MUL || lv.Op != token.MUL || la.X != lv.X {
+			return false
+		}
+		cell, isCell := la.X.(*ssa.Alloc)
+		if !isCell {
+			return false
+		}
+		after := map[*ssa.BasicBlock]bool{}
+		for _, sc := range c.Block().Succs {
+			for b := range reachableFrom(sc, nil) {
+				after[b] = true
+			}
+		}
+		for _, ref := range *cell.Referrers() {
+			st, isSt := ref.(*ssa.Store)
+			if !isSt || st.Addr != ssa.Value(cell) {
+				continue
+			}
+			if after[st.Block()] {
+				return false
+			}
+			if st.Block() == c.Block() {
+				// in the sort's own block: must come before it
+				for _, in := range c.Block().Instrs {
+					if in == ssa.Instruction(c) {
+						return false
+					}
+					if in == ssa.Instruction(st) {
+						break
+					}
+				}
+			}
+		}
+		return true
+	}
+	var sortedAt func(fn *ssa.Function, v ssa.Value, at *ssa.BasicBlock, depth int) (bool, string)
+	callSites := func(fn *ssa.Function) []*ssa.Call {
+		var out []*ssa.Call
+		for _, g := range p.Funcs {
+			for _, b := range g.Blocks {
+				for _, in := range b.Instrs {
+					if c, ok := in.(*ssa.Call); ok && c.Call.StaticCallee() == fn {
+						out = append(out, c)
+					}
+				}
+			}
+		}
+		return out
+	}
+	sortedAt = func(fn *ssa.Function, v ssa.Value, at *ssa.BasicBlock, depth int) (bool, string) {
+		for _, b := range fn.Blocks {
+			for _, in := range b.Instrs {
+				if c, ok := in.(*ssa.Call); ok && sortCallOn(c, v) && (b == at || b.Dominates(at)) {
+					return true, "sorted at " + p.Pos(c.Pos())
+				}
+			}
+		}
+		if pa, ok := v.(*ssa.Parameter); ok && depth < 3 {
+			idx := paramIndex(fn, pa)
+			sites := callSites(fn)
+			if len(sites) == 0 {
+				return false, "parameter of a function without in-repo callers"
+			}
+			for _, c := range sites {
+				if idx >= len(c.Call.Args) {
+					return false, "call without the argument"
+				}
+				if ok, why := sortedAt(c.Parent(), c.Call.Args[idx], c.Block(), depth+1); !ok {
+					return false, "the call at " + p.Pos(c.Pos()) + " in " + FnName(c.Parent()) + " hands in a slice that is not sorted there (" + why + ")"
+				}
+			}
+			return true, "sorted at every call site"
+		}
+		return false, "no sort call on this slice dominates the read"
+	}
+	n := 0
+	for _, fn := range p.Funcs {
+		if fn.Pkg != pk || !decodes(fn) {
+			continue
+		}
+		done := map[ssa.Value]bool{}
+		for _, b := range fn.Blocks {
+			for _, in := range b.Instrs {
+				ia, ok := in.(*ssa.IndexAddr)
+				if !ok || !isU64Slice(ia.X.Type()) || done[ia.X] {
+					continue
+				}
+				// only reads matter
+				// only elements that are ORDER-compared matter (a merge); an element that is looked up in an index or
+				// compared for equality needs no order
+				read := false
+				for _, ref := range *ia.Referrers() {
+					if u, ok := ref.(*ssa.UnOp); ok && u.Op == token.MUL {
+						for _, r2 := range *u.Referrers() {
+							if bo, ok := r2.(*ssa.BinOp); ok {
+								switch bo.Op {
+								case token.LSS, token.GTR, token.LEQ, token.GEQ:
+									read = true
+								}
+							}
+						}
+					}
+				}
+				if !read {
+					continue
+				}
+				done[ia.X] = true
+				n++
+				ok2, why := sortedAt(fn, ia.X, b, 0)
+				r.Add(rule, FnName(fn), "the hashed query "+exprString(ia.X)+" merged with the decoded filter is in ascending order", ia.Pos(), ok2, why)
+			}
+		}
+	}
+	return n
 }
